@@ -539,3 +539,5 @@ M('c07-num-pow2-carry', 'C07', SUMF, "                input_labels = input_label
 M('c13-many-outputs-slice', 'C13', MIT, "        miter.emplace_gate(OR_NAME, gate.OR, xor_outputs)", "        miter.emplace_gate(OR_NAME, gate.OR, xor_outputs[:5] if len(xor_outputs) > 5 else xor_outputs)", 'C13.FOLD')
 M('c20-cycle-first-output-only', 'C20', VAL, "    more_itertools.consume(circuit.dfs(on_discover_hook=on_discover_hook))", "    more_itertools.consume(circuit.dfs(circuit.outputs[:1] or None, on_discover_hook=on_discover_hook))", 'C20.FOLD')
 M('c05-sat-answer-from-model', 'C05', 'cirbo/sat/sat.py', "        return PySatResult(_solver.solve(), _solver.get_model())", "        _solver.solve()\n        return PySatResult(bool(_solver.get_model()), _solver.get_model())", 'C05.SAT')
+M('c08-revert-f34', 'C08', MULF, "            if i > 0 and c[i - 1][1] != PLACEHOLDER_STR:\n                runs_b[-1][1].append(c[i][1])", "            if runs_b:\n                runs_b[-1][1].append(c[i][1])", 'C08.NUM')
+M('c04-revert-f35', 'C04', SUBC, "                    if user not in cut_nodes[cut] or user in inputs:", "                    if user not in cut_nodes[cut]:", 'C04.')
